@@ -4,7 +4,7 @@ import Enc.Lemmas.ProtoMapRef
 
   * `zeroOf_eqM / zeroOfCodec_codecForM / cnums_fieldsOfM`   preparations of `ProtoRoundTripZero/Field` on `tyOKM`
   * `dec_entry`          the synthetic entry codec decodes one entry chunk to `{key, val'}`
-  * `decode_map`         the `.map` arm of `decode` on an entry chunk assigns the pair (`mapAssign`)
+  * `decode_map`         the `.map` arm of `decodeU` on an entry chunk assigns the pair (`mapAssign`)
   * `dec_entries`        what `encodeMap` wrote is a segment of the decoder's struct loop that fills the slot in order
   * `dec_oneM / dec_fieldsM / dec_fieldsRM`   the mutual induction of `ProtoRoundTrip` re-run on `tyOKM`
   * `unmarshal_marshal_map_partial`, `unmarshal_marshal_map_ptrmsg_partial`
@@ -146,7 +146,7 @@ theorem key_canon_inj (kt : Ty) (hk : keyTy kt = true) (v v' : Val) (hv : hasTyp
 theorem dec_key (kt : Ty) (hk : keyTy kt = true) (key : Val) (hkv : hasTypeM kt key = true) (dfl : Flags)
     (hzd : dfl.zigzag = false) (hlen : (encode (codecOf kt) key wz).length < 2 ^ 64) :
     0 < size (codecOf kt) key wz ∧ IsPayload (codecOf kt).wire.num (encode (codecOf kt) key wz)
-      ∧ ∀ f cur, decode (f + 1) (codecOf kt) (encode (codecOf kt) key wz) cur dfl
+      ∧ ∀ f cur, decodeU (f + 1) (codecOf kt) (encode (codecOf kt) key wz) cur dfl
           = .ok (key, (encode (codecOf kt) key wz).length) := by
   have hsc := keyTy_scalar kt hk
   have hty := keyTy_tyOK kt hk
@@ -194,7 +194,7 @@ theorem entryBytes_eq (kt vt : Ty) (hk : keyTy kt = true) (hvt : tyOKM vt = true
   simp only [entryBody, entryRecs, encRecs_append]
 
 /-- **one entry, model side**: the synthetic entry codec decodes the entry body the map encoder wrote for
-`(key, val)` — starting from the zero entry, as the `.map` arm of `decode` does — to `{key, val'}`, the key literally,
+`(key, val)` — starting from the zero entry, as the `.map` arm of `decodeU` does — to `{key, val'}`, the key literally,
 `val'` agreeing with `val` (also when the value part was left out) -/
 theorem dec_entry (kt vt : Ty) (hk : keyTy kt = true) (hvt : tyOKM vt = true) (hvs : isSlice vt = false)
     (hvm : isMap vt = false) (key val : Val) (hkv : hasTypeM kt key = true) (hvv : hasTypeM vt val = true)
@@ -202,11 +202,11 @@ theorem dec_entry (kt vt : Ty) (hk : keyTy kt = true) (hvt : tyOKM vt = true) (h
     (IH : ∀ w, payloadM true vt { number := 2 } val = some w → (encode (codecOf vt) val wz).length < 2 ^ 64 →
       ∃ v', (if isEmb vt = true then (codecOf vt).wire = .varlen
               else IsPayload (codecOf vt).wire.num (encode (codecOf vt) val wz))
-        ∧ (∃ f, decode f (codecOf vt) (encode (codecOf vt) val wz) (zeroOf vt) { toplevel := false }
+        ∧ (∃ f, decodeU f (codecOf vt) (encode (codecOf vt) val wz) (zeroOf vt) { toplevel := false }
               = .ok (v', (encode (codecOf vt) val wz).length))
         ∧ AgrM vt v' val)
     (hlen : (entryBytes kt vt key val).length < 2 ^ 64) :
-    ∃ v', (∃ f, decode f (entryC kt vt) (entryBytes kt vt key val) (zeroOfCodec (entryC kt vt)) {}
+    ∃ v', (∃ f, decodeU f (entryC kt vt) (entryBytes kt vt key val) (zeroOfCodec (entryC kt vt)) {}
         = .ok (.struct (.cons key (.cons v' .nil)), (entryBytes kt vt key val).length)) ∧ AgrM vt v' val := by
   unfold entryBytes at hlen ⊢
   simp only [List.length_append] at hlen
@@ -268,15 +268,15 @@ theorem dec_entry (kt vt : Ty) (hk : keyTy kt = true) (hvt : tyOKM vt = true) (h
     rw [hzero, entryC, decode_struct_succ, hrun]
     rfl
 
-/-- **the `.map` arm of `decode`** on a non-empty entry chunk: the entry codec's result `{k, v}` is assigned to the map
+/-- **the `.map` arm of `decodeU`** on a non-empty entry chunk: the entry codec's result `{k, v}` is assigned to the map
 in the slot (`mapAssign` with `valEqShow`); a key not yet present is appended -/
 theorem decode_map (f : Nat) (num : Nat) (kc vc : Codec) (kEmb vEmb : Bool) (entry : Codec) (d : Bytes)
     (acc : List (Val × Val)) (fl : Flags) (k v : Val) (n : Nat) (hd : d ≠ [])
-    (h : decode f entry d (zeroOfCodec entry) {} = .ok (.struct (.cons k (.cons v .nil)), n))
+    (h : decodeU f entry d (zeroOfCodec entry) {} = .ok (.struct (.cons k (.cons v .nil)), n))
     (hfresh : ∀ p ∈ acc, (p.1.show == k.show) = false) :
-    decode (f + 1) (.map num kc vc kEmb vEmb entry) d (accMap acc) fl = .ok (accMap (acc ++ [(k, v)]), n) := by
+    decodeU (f + 1) (.map num kc vc kEmb vEmb entry) d (accMap acc) fl = .ok (accMap (acc ++ [(k, v)]), n) := by
   have he : d.isEmpty = false := by cases d <;> simp_all
-  simp only [decode, he, Bool.false_eq_true, if_false, h]
+  simp only [decodeU, he, Bool.false_eq_true, if_false, h]
   cases acc with
   | nil => simp only [accMap, mapAssign, List.nil_append, flat]
   | cons p l =>
@@ -310,7 +310,7 @@ theorem dec_entries (cfsAll : CFields) (dfl : Flags) (kt vt : Ty) (hk : keyTy kt
     (hlk : lookupField cfsAll num = some (pre.length, true, zz, mapC num kt vt))
     (hstep : ∀ key val, hasTypeM kt key = true → hasTypeM vt val = true → valOKM vt val = true →
       (entryBytes kt vt key val).length < 2 ^ 64 →
-      ∃ v', (∃ f, decode f (entryC kt vt) (entryBytes kt vt key val) (zeroOfCodec (entryC kt vt)) {}
+      ∃ v', (∃ f, decodeU f (entryC kt vt) (entryBytes kt vt key val) (zeroOfCodec (entryC kt vt)) {}
           = .ok (.struct (.cons key (.cons v' .nil)), (entryBytes kt vt key val).length)) ∧ AgrM vt v' val) :
     ∀ (kvs : Vals) (acc : List (Val × Val)), hasTypeMapM kt vt kvs = true → valOKMapM vt kvs = true →
       keysDistinct kvs = true → (∀ p ∈ acc, keysDistinct.allFresh p.1 kvs = true) →
@@ -360,7 +360,7 @@ theorem dec_elemsM (cfsAll : CFields) (dfl : Flags) (e : Ty) (ec : Codec) (num :
     (hlk : lookupField cfsAll num = some (pre.length, emb, false, .slice ec num ec.wire emb))
     (hstep : ∀ x, hasTypeM e x = true → valOKM e x = true → (encode ec x wz).length < 2 ^ 64 →
       ∃ x', (if emb = true then ec.wire = .varlen else IsPayload ec.wire.num (encode ec x wz))
-        ∧ (∃ f, decode f ec (encode ec x wz) (zeroOfCodec ec) {} = .ok (x', (encode ec x wz).length))
+        ∧ (∃ f, decodeU f ec (encode ec x wz) (zeroOfCodec ec) {} = .ok (x', (encode ec x wz).length))
         ∧ canonical e x' = canonical e x) :
     ∀ (es : Vals) (acc : List Val), hasTypeListM e es = true → valOKListM e es = true →
       (encodeSlice ec (encodeTag num ec.wire) emb es).length < 2 ^ 64 →
@@ -398,7 +398,7 @@ theorem dec_oneM (t : Ty) (o : FieldOpt) (v : Val) (efl dfl : Flags)
     (hlen : (encode (codecFor t o) v efl).length < 2 ^ 64) :
     ∃ v', (if isEmb t = true then (codecFor t o).wire = .varlen
             else IsPayload (codecFor t o).wire.num (encode (codecFor t o) v efl))
-      ∧ (∃ f, decode f (codecFor t o) (encode (codecFor t o) v efl) (zeroOf t) dfl
+      ∧ (∃ f, decodeU f (codecFor t o) (encode (codecFor t o) v efl) (zeroOf t) dfl
             = .ok (v', (encode (codecFor t o) v efl).length))
       ∧ AgrM t v' v := by
   by_cases hptr : isPtr t = true
@@ -424,7 +424,7 @@ theorem dec_oneM (t : Ty) (o : FieldOpt) (v : Val) (efl dfl : Flags)
         (ptrTarget_notSlice t' ht.1) hnm' hv hne.2 ho' hze hzd w hp hlen
       refine ⟨.ptr v', ?_, ⟨f + 1, ?_⟩, AgrM.ptr hagr⟩
       · simpa only [Codec.wire] using hsh
-      · simp only [decode, zeroOf, zeroOfCodec_codecForM t' o ht.2 hnm', hdec, Res.bind]
+      · simp only [decodeU, zeroOf, zeroOfCodec_codecForM t' o ht.2 hnm', hdec, Res.bind]
   have hnp : isPtr t = false := by simpa using hptr
   by_cases hs : isStructTy t = true
   · cases t <;> simp only [isStructTy] at hs <;> try (exact absurd hs (by decide))
@@ -655,7 +655,7 @@ theorem dec_fieldsRM (cfsAll : CFields) (fs : Fields) (vs us : Vals) (rfl_ dfl :
         rw [henc] at hlen ⊢
         have hstep : ∀ key val, hasTypeM kt key = true → hasTypeM vt val = true → valOKM vt val = true →
             (entryBytes kt vt key val).length < 2 ^ 64 →
-            ∃ v', (∃ f, decode f (entryC kt vt) (entryBytes kt vt key val) (zeroOfCodec (entryC kt vt)) {}
+            ∃ v', (∃ f, decodeU f (entryC kt vt) (entryBytes kt vt key val) (zeroOfCodec (entryC kt vt)) {}
                 = .ok (.struct (.cons key (.cons v' .nil)), (entryBytes kt vt key val).length)) ∧ AgrM vt v' val := by
           intro key val hkv hvv hvok hel
           refine dec_entry kt vt hk hvt hvs hvm key val hkv hvv hvok ?_ hel
@@ -710,7 +710,7 @@ theorem dec_fieldsRM (cfsAll : CFields) (fs : Fields) (vs us : Vals) (rfl_ dfl :
           have hstep : ∀ x, hasTypeM e x = true → valOKM e x = true → (encode (codecOf e) x wz).length < 2 ^ 64 →
               ∃ x', (if isStructTy e = true then (codecOf e).wire = .varlen
                       else IsPayload (codecOf e).wire.num (encode (codecOf e) x wz))
-                ∧ (∃ f, decode f (codecOf e) (encode (codecOf e) x wz) (zeroOfCodec (codecOf e)) {}
+                ∧ (∃ f, decodeU f (codecOf e) (encode (codecOf e) x wz) (zeroOfCodec (codecOf e)) {}
                       = .ok (x', (encode (codecOf e) x wz).length))
                 ∧ canonical e x' = canonical e x := by
             intro x hx hxne hxl
@@ -767,12 +767,12 @@ end
 
 /-! ## Part 3: the statements -/
 
-/-- **message level, general form** on `tyOKM`: `unmarshal` succeeds on what `marshal` wrote and returns a value that
+/-- **message level, general form** on `tyOKM`: `unmarshalU` succeeds on what `marshal` wrote and returns a value that
 agrees with the original in `canonical` form; covers the empty encoding. -/
 theorem unmarshal_marshal_map_agr (fs : Fields) (vs : Vals)
     (hty : tyOKM (.struct fs) = true) (hv : hasTypesM fs vs = true) (hne : valsOKM fs vs = true)
     (hlen : (marshal (.struct fs) (.struct vs)).length < 2 ^ 64) :
-    ∃ v', unmarshal (.struct fs) (marshal (.struct fs) (.struct vs)) = .ok v'
+    ∃ v', unmarshalU (.struct fs) (marshal (.struct fs) (.struct vs)) = .ok v'
       ∧ AgrM (.struct fs) v' (.struct vs) := by
   have hc : codecFor (.struct fs) { number := 0 } = codecOf (.struct fs) := by simp only [codecFor]
   have hm : marshal (.struct fs) (.struct vs)
@@ -813,7 +813,7 @@ covers, plus map fields `map[K]V` (`K` bool / int int32 int64 uint uint32 uint64
 theorem unmarshal_marshal_map_partial (fs : Fields) (v : Val)
     (hty : tyOKM (.struct fs) = true) (hv : hasTypeM (.struct fs) v = true) (hne : valOKM (.struct fs) v = true)
     (hlen : (marshal (.struct fs) v).length < 2 ^ 64) :
-    ∃ v', unmarshal (.struct fs) (marshal (.struct fs) v) = .ok v'
+    ∃ v', unmarshalU (.struct fs) (marshal (.struct fs) v) = .ok v'
       ∧ canonical (.struct fs) v' = canonical (.struct fs) v := by
   cases v <;> simp only [hasTypeM] at hv <;> try (exact absurd hv (by decide))
   rename_i vs
@@ -824,7 +824,7 @@ theorem unmarshal_marshal_map_ptrmsg_partial (fs : Fields) (v : Val)
     (hty : tyOKM (.ptr (.struct fs)) = true) (hv : hasTypeM (.ptr (.struct fs)) (.ptr v) = true)
     (hne : valOKM (.ptr (.struct fs)) (.ptr v) = true)
     (hlen : (marshal (.ptr (.struct fs)) (.ptr v)).length < 2 ^ 64) :
-    ∃ v', unmarshal (.ptr (.struct fs)) (marshal (.ptr (.struct fs)) (.ptr v)) = .ok v'
+    ∃ v', unmarshalU (.ptr (.struct fs)) (marshal (.ptr (.struct fs)) (.ptr v)) = .ok v'
       ∧ canonical (.ptr (.struct fs)) v' = canonical (.ptr (.struct fs)) (.ptr v) := by
   have hc : codecFor (.ptr (.struct fs)) { number := 0 } = codecOf (.ptr (.struct fs)) := by simp only [codecFor]
   have hm : marshal (.ptr (.struct fs)) (.ptr v)
@@ -854,12 +854,12 @@ theorem unmarshal_marshal_map_ptrmsg_partial (fs : Fields) (v : Val)
       omega
     · rw [← hc]; exact hdec
 
-/-- both decoders on what `Marshal` wrote: the model's `unmarshal` and the reference `decode` succeed and return
+/-- both decoders on what `Marshal` wrote: the model's `unmarshalU` and the reference `decodeU` succeed and return
 values with the same `canonical` form (that of the original) -/
 theorem unmarshal_decode_marshal_map (fs : Fields) (v : Val)
     (hty : tyOKM (.struct fs) = true) (hv : hasTypeM (.struct fs) v = true) (hne : valOKM (.struct fs) v = true)
     (hlen : (marshal (.struct fs) v).length < 2 ^ 64) :
-    ∃ v' v'', unmarshal (.struct fs) (marshal (.struct fs) v) = .ok v'
+    ∃ v' v'', unmarshalU (.struct fs) (marshal (.struct fs) v) = .ok v'
       ∧ Spec.Protobuf.decode (.struct fs) (marshal (.struct fs) v) = some v''
       ∧ canonical (.struct fs) v' = canonical (.struct fs) v'' := by
   obtain ⟨v', h1, h2⟩ := unmarshal_marshal_map_partial fs v hty hv hne hlen
